@@ -45,6 +45,15 @@ pub const KIND_REPLAY: u8 = 4;
 pub const KIND_UPS: u8 = 5;
 pub const KIND_UNDECODABLE: u8 = 9;
 
+/// at most this many datagram records are kept per run (about 90 MB)
+pub const LOG_CAP: usize = 600_000;
+/// a run is stopped when it has moved this many datagrams
+/// receive queue of a simulated socket, in datagrams (an undrained socket tail-drops beyond it)
+pub const RX_QUEUE_PACKETS: usize = 16_384;
+pub const DATAGRAM_BUDGET: u64 = 2_500_000;
+/// ... or this many bytes (fault-free runs of the largest plans move well under 100 MB)
+pub const BYTE_BUDGET: u64 = 600_000_000;
+
 pub fn kind_name(k: u8) -> &'static str {
     match k {
         KIND_STREAM => "stream",
@@ -203,6 +212,12 @@ pub struct LinkState {
     decode: bool,
     /// set by the supervisor when the run is over: teardown traffic is discarded unlogged
     pub closed: bool,
+    /// all datagrams handed to the link (the log itself is capped to bound memory)
+    pub datagrams: u64,
+    pub bytes_moved: u64,
+    /// budget exhausted: the link stops carrying traffic (bounds the memory of undrained queues)
+    pub over_budget: bool,
+    pub log_truncated: bool,
     real_ids: std::collections::HashSet<[u8; 16]>,
     delivered_flows: std::collections::HashSet<(u8, u64)>,
     forge_as_drop: bool,
@@ -252,6 +267,10 @@ impl LinkState {
             stats: LinkStats::default(),
             decode: true,
             closed: false,
+            datagrams: 0,
+            bytes_moved: 0,
+            over_budget: false,
+            log_truncated: false,
             real_ids: Default::default(),
             delivered_flows: Default::default(),
             forge_as_drop: plan.forge_as_drop,
@@ -294,6 +313,17 @@ impl LinkState {
     fn on_send(&mut self, packet: Packet) -> Vec<Out> {
         if self.closed {
             return vec![];
+        }
+        self.datagrams += 1;
+        self.bytes_moved += packet.transport.payload().len() as u64;
+        if self.datagrams > DATAGRAM_BUDGET || self.bytes_moved > BYTE_BUDGET {
+            self.over_budget = true;
+            return vec![];
+        }
+        if self.log.len() >= LOG_CAP {
+            // memory bound for pathological (livelocked) runs: keep simulating, stop recording
+            self.log_truncated = true;
+            return self.passthrough(packet);
         }
         let t = now_ns();
         let src = packet.source();
@@ -488,6 +518,19 @@ impl LinkState {
         outs
     }
 
+    /// fault-free delivery without a log record (only used once the log cap is reached)
+    fn passthrough(&mut self, packet: Packet) -> Vec<Out> {
+        let dst = packet.destination();
+        let dir = match self.server_ip {
+            Some(ip) if dst.ip() == ip => DIR_C2S,
+            _ => DIR_S2C,
+        };
+        if self.vanished[dir as usize] {
+            return vec![];
+        }
+        vec![Out { delay_us: self.cfg.base_delay_us, packet, rec: usize::MAX }]
+    }
+
     fn remember(&mut self, d: usize, bytes: Bytes, meta: Meta) {
         if self.forges.is_empty() && self.kind_forges.is_empty() {
             return;
@@ -642,6 +685,9 @@ impl LinkState {
         if self.closed {
             return false;
         }
+        if rec == usize::MAX {
+            return true;
+        }
         let t = now_ns();
         let (dir, ord, dst, label, kind, flow, equiv, known_id) = {
             let r = &mut self.log[rec];
@@ -743,7 +789,7 @@ impl Allocator for SimLink {
             .mutex()
             .channel();
         let (rx_sender, rx_receiver) = vec_deque::Queue::builder()
-            .with_capacity(None)
+            .with_capacity(Some(RX_QUEUE_PACKETS))
             .with_overflow(vec_deque::Overflow::PreferOldest)
             .build::<Packet>()
             .mutex()
